@@ -169,12 +169,16 @@ CLAIMED["C01"] = dict(
 CLAIMED["C20"] = dict(
     level="other", design="3/C20",
     technique="static analysis: extraction of the unit table, SI-name table, conversion list and of every default unit literal in the "
-              "library (call-site query over all units) with exact rational consistency checks; structural stack-discipline rule on the YAML parser",
+              "library (call-site query over all units) with exact rational consistency checks; structural stack-discipline rule on the YAML parser; "
+              "writer/reader name-table agreement for the HDF5 snapshot (string patterns resolved through the field-name switch)",
     text="Decides the self-consistency of the built-in tables and of all their users: SI-prefixed table entries differ from their base unit by "
          "exactly the prefix power; every quantity has an SI name made of factor-1 table units; every default unit literal passed to "
          "get_physical_value/get_physical_vector anywhere in the library parses and has the dimension of its quantity (or a registered "
          "conversion); the parameter-file parser keeps group and indentation stacks in lock step, closes every deeper group on a dedent and "
-         "clears both on a top-level line. The parse/print round trip for arbitrary trees, printed precision and the HDF5 snapshot path are not decided.",
+         "clears both on a top-level line; every group, attribute and dataset name (with element type and per-ion suffix function) the "
+         "snapshot reader asks for is one the snapshot writer produces, stored unit values x conversion applied = 1, and parameter keys read "
+         "back from a snapshot are keys the components read. The parse/print round trip for arbitrary trees, printed precision and the "
+         "HDF5 library itself are not decided.",
     note="Trusted: clang, AST export, sympy rationals; literal values are read as written in the source.")
 
 CLAIMED["C06"] = dict(
